@@ -455,6 +455,28 @@ fn path_texts() -> Vec<String> {
 
 // ------------------------------------------------------------------------------------------ sorts
 
+/// The tandem sorter on elements that own heap memory (a moved-from slot that is dropped, or a copy that is read twice,
+/// shows as a double free / use after free — under Miri as UB, natively as an abort inside an isolated worker).
+fn sorts_owning_case(keys: &[u8]) -> Result<u64, String> {
+    let items: Vec<(u8, usize)> = keys.iter().copied().enumerate().map(|(i, k)| (k, i)).collect();
+    let mut sorter = TandemSorter::new_stable(&items, |a, b| a.0.cmp(&b.0));
+    let mut boxed: Vec<Box<(u8, usize)>> = items.iter().map(|x| Box::new(*x)).collect();
+    let mut strings: Vec<String> = items.iter().map(|x| format!("{}-{}-some-heap-allocated-text", x.0, x.1)).collect();
+    let mut nested: Vec<Vec<u8>> = items.iter().map(|x| vec![x.0; x.1 + 1]).collect();
+    sorter.sort(&mut boxed);
+    sorter.sort(&mut strings);
+    sorter.sort(&mut nested);
+    let mut want = items.clone();
+    want.sort_by(|x, y| x.0.cmp(&y.0));
+    let ok = boxed.iter().map(|b| **b).eq(want.iter().copied()) && strings.iter().zip(&want).all(|(s, w)| *s == format!("{}-{}-some-heap-allocated-text", w.0, w.1)) && nested.iter().zip(&want).all(|(v, w)| v.len() == w.1 + 1 && v.iter().all(|b| *b == w.0));
+    drop((boxed, strings, nested));
+    if ok {
+        Ok(3)
+    } else {
+        Err(format!("TandemSorter on owning elements: wrong contents after sorting {keys:?}"))
+    }
+}
+
 fn sorts_case(keys: &[u8]) -> Result<u64, String> {
     // TandemSorter: stable, second slice permuted in tandem, reusable
     let items: Vec<(u8, usize)> = keys.iter().copied().enumerate().map(|(i, k)| (k, i)).collect();
@@ -642,7 +664,7 @@ fn miri_body(thorough: bool, part: &str) {
     }
     // (m4) sorts
     for k in if part == "decode" { key_arrays(if thorough { 5 } else { 3 }) } else { Vec::new() } {
-        if let Err(m) = sorts_case(&k).and_then(|_| legacy_sort_case(&k)) {
+        if let Err(m) = sorts_case(&k).and_then(|_| legacy_sort_case(&k)).and_then(|_| sorts_owning_case(&k)) {
             println!("MIRI-FAIL sorts {m}");
             std::process::exit(1);
         }
@@ -763,6 +785,43 @@ fn main() {
                 }
             });
         }
+    }
+    {
+        let arrays = key_arrays(5);
+        ctx.universe_isolated("sorts-owning-elements/vdebug", arrays.len() as u64, 20.0, 2048, |idx, l| {
+            l.states(1);
+            l.nontrivial();
+            match sorts_owning_case(&arrays[idx as usize]) {
+                Ok(c) => l.checked(c),
+                Err(m) => l.violation("sorts", || m),
+            }
+        });
+        // the decoder sorts hit objects (which own their slider paths) with it: every order of four lines, two of them sliders
+        let lines = ["100,100,1000,1,0,0:0:0:0:", "100,100,500,2,0,L|200:100,1,100", "300,100,2000,2,0,B|350:150|400:100,2,120", "200,200,1500,1,0,0:0:0:0:"];
+        let perms: Vec<Vec<usize>> = {
+            let mut out = Vec::new();
+            for a in 0..4 { for b in 0..4 { for c in 0..4 { for d in 0..4 { if a != b && a != c && a != d && b != c && b != d && c != d { out.push(vec![a, b, c, d]); } } } } }
+            out
+        };
+        ctx.universe_isolated("decoder-unsorted-sliders/vdebug", (perms.len() * 4) as u64, 20.0, 2048, |idx, l| {
+            let p = &perms[idx as usize % perms.len()];
+            let mode = idx as usize / perms.len();
+            let mut t = format!("osu file format v14\n[General]\nMode: {mode}\n[TimingPoints]\n0,500,4,2,0,60,1,0\n[HitObjects]\n");
+            for &k in p {
+                t.push_str(lines[k]);
+                t.push('\n');
+            }
+            l.states(1);
+            l.checked(1);
+            l.nontrivial();
+            if let Ok(m) = Beatmap::from_bytes(t.as_bytes()) {
+                let times: Vec<f64> = m.hit_objects.iter().map(|h| h.start_time).collect();
+                if times != [500.0, 1000.0, 1500.0, 2000.0] || m.hit_objects.iter().filter(|h| h.is_slider()).count() != 2 {
+                    l.violation("decoder_unsorted", || format!("objects after decoding: {times:?}\n--- text ---\n{t}"));
+                }
+                drop(m);
+            }
+        });
     }
     ctx.universe_isolated("difficulty-clock-rate-niche/vdebug", RATE_NICHE.len() as u64, 20.0, 2048, |idx, l| {
         l.states(1);
